@@ -859,7 +859,14 @@ impl Xot {
         }
         let outer = self.fullname_serializer_at(top, element);
         let known_outside = if namespace_id == self.no_namespace() {
-            prefix_id == self.empty_prefix() && !outer.has_default_namespace()
+            // nothing to undeclare: no default namespace the serializer
+            // would have in effect here, and none declared in the tree above
+            // (an ancestor of `top` included) either
+            prefix_id == self.empty_prefix()
+                && !outer.has_default_namespace()
+                && self
+                    .default_namespace_ignoring(element, Some(element))
+                    .is_none()
         } else {
             outer.is_namespace_known(namespace_id)
         };
